@@ -163,7 +163,14 @@ def gen_cases(rng, tier):
             return outs
         # the typist's view: another sequence whose keys, in some permitted order, are the first keys pressed here; the two differ
         # only in which keys overlap, which is not decided yet when the shorter one completes
-        shadow = any(s2 is not target and any(o == presses[:len(o)] for o in flat_orders(s2))
+        def cpl(a, b):
+            n = 0
+            while n < len(a) and n < len(b) and a[n] == b[n]:
+                n += 1
+            return n
+        # ... or that shares its first two or more keys with what is typed here (`(b m A-(n y))` next to `(O-(m b) m)` typed b, m:
+        # the presses run down the plain path b m and the overlap group is never recognised)
+        shadow = any(s2 is not target and any(o == presses[:len(o)] or cpl(o, presses) >= 2 for o in flat_orders(s2))
                      and (any(it3[0] == 'ov' for it3 in target) or any(it3[0] == 'ov' for it3 in s2)) for s2 in seqs)
         cases.append({'id': 'c12-run-%d' % i, 'cfg': cfg, 'hist': h, 'sub': 'ksim', 'kind': kind, 'mode': mode, 'always': always,
                       'shadow': shadow, 'target_vk': seqs.index(target), 'tags': {'kind': kind, 'mode': mode, 'always_on': always, 'shadowed': shadow}})
